@@ -1,5 +1,6 @@
 import SqlObjVerif.Lemmas.Joins
 import SqlObjVerif.Lemmas.JoinsXAcc
+import SqlObjVerif.Lemmas.JoinsXNew
 /-!
 # C13 — join accessors always mirror the stored relation
 
@@ -229,6 +230,53 @@ theorem C13_translated_single_makeDefault (P : Params) (hmd : P.D.makeDefault = 
 
 theorem C13_translated_getID_eq_model (P : Params) (db : DB) (v : PVal) (j : Nat) (h : IsId v j) :
     getIDX P db v = .ok (.int j) := getIDX_isId P db v j h
+
+
+/-- the query-flavoured `SOSQLMultipleJoin.performJoin`: it returns `otherClass.select(q.<key> == inst.id).orderBy(join.orderBy)`,
+    and that select expression stands for exactly the model's `referrers` (which the database then orders) -/
+theorem C13_translated_sqlMultipleJoin_eq_model (P : Params) (db : DB) (k j : Nat) :
+    sqlMultiplePerformJoinX P db k j = .ret db Heap.empty
+      (.app "orderBy" (.cons (.app "select" (.cons (.obj (.cls P.D.other)) (.cons (.obj (.col P.D.fkcol)) (.cons (.int j) .nil))))
+        (.cons P.D.orderBy .nil))) ∧
+    queryRows modelConn db (.app "select" (.cons (.obj (.cls P.D.other)) (.cons (.obj (.col P.D.fkcol)) (.cons (.int j) .nil)))) =
+      some ((referrers db P.D.other P.D.fkcol j).map some) :=
+  ⟨sqlMultiplePerformJoinX_eq P db k j, queryRows_sqlMultiple db _ _ _⟩
+
+/-- new-style `ManyToMany.__get__`: the wrapper around a select whose rows are the model's `manyToMany` -/
+theorem C13_translated_manyToMany_get_eq_model (P : Params) (db : DB) (k j : Nat) (ty : PVal) :
+    m2mGetX P db (.obj (.inst k j)) ty = .ret db Heap.empty (m2mWrapper P k j) ∧
+    queryRows modelConn db (.app "select" (.cons (.obj (.cls P.D.other))
+        (.cons (m2mQuery P.D.other P.D.table (!P.D.ownFirst) P.D.ownFirst j) .nil))) =
+      some ((manyToMany db P.D.table P.D.ownFirst j).map some) :=
+  ⟨m2mGetX_eq P db k j ty, queryRows_m2m db _ _ _ _⟩
+
+/-- new-style `OneToMany.__get__`: the wrapper around a select whose rows are the model's `referrers` -/
+theorem C13_translated_oneToMany_get_eq_model (P : Params) (db : DB) (k j : Nat) (ty : PVal) :
+    o2mGetX P db (.obj (.inst k j)) ty = .ret db Heap.empty
+      (.app "O2MWrapper" (.cons (.obj (.inst k j)) (.cons (.obj .o2m) (.cons
+        (.app "select" (.cons (.obj (.cls P.D.other)) (.cons (o2mQuery P.D.other P.D.fkcol j) .nil))) .nil)))) ∧
+    queryRows modelConn db (.app "select" (.cons (.obj (.cls P.D.other)) (.cons (o2mQuery P.D.other P.D.fkcol j) .nil))) =
+      some ((referrers db P.D.other P.D.fkcol j).map some) :=
+  ⟨o2mGetX_eq P db k j ty, queryRows_o2m db _ _ _⟩
+
+/-- the wrapper's `add` / `remove` are the model's `m2mAdd` / `m2mRemove` -/
+theorem C13_translated_manyToMany_add_eq_model (P : Params) (hC : P.C = modelConn) (db : DB) (heap : Heap Hnd) (k j k' j' : Nat) :
+    m2mAddX P (m2mWrapper P k j) db heap [.obj (.inst k' j')] = .ret (m2mAdd db P.D.table P.D.ownFirst j j') heap .none := by
+  rw [m2mAddX_eq, hC, C13_manyToMany_eq_related.2.1, addLink_def]
+  rfl
+
+theorem C13_translated_manyToMany_remove_eq_model (P : Params) (hC : P.C = modelConn) (db : DB) (heap : Heap Hnd) (k j k' j' : Nat) :
+    m2mRemoveX P (m2mWrapper P k j) db heap [.obj (.inst k' j')] = .ret (m2mRemove db P.D.table P.D.ownFirst j j') heap .none := by
+  rw [m2mRemoveX_eq, hC, C13_manyToMany_eq_related.2.2, removeLink_def]
+  rfl
+
+/-- the wrapper's `create(**kw)`: the class constructor (a parameter), then the model's `m2mAdd` of the new instance -/
+theorem C13_translated_manyToMany_create_eq_model (P : Params) (hC : P.C = modelConn) (db : DB) (k j : Nat) (kw : List (PVal × PVal)) :
+    m2mCreateX P (m2mWrapper P k j) db kw =
+      .ret (m2mAdd (modelConn.createKw db P.D.other kw).1 P.D.table P.D.ownFirst j (modelConn.createKw db P.D.other kw).2)
+        Heap.empty (.obj (.inst P.D.other (modelConn.createKw db P.D.other kw).2)) := by
+  rw [m2mCreateX_eq, hC, C13_manyToMany_eq_related.2.1, addLink_def]
+  rfl
 
 
 /-! ### Non-vacuity of the translated runs: concrete worlds, evaluated by the kernel -/
